@@ -691,12 +691,22 @@ func (c *DnsCache) IncludeAnyIp() bool {
 }
 
 func dnsAnswerIP(rr dnsmessage.RR) (netip.Addr, bool) {
+	var (
+		addr netip.Addr
+		ok   bool
+	)
 	switch body := rr.(type) {
 	case *dnsmessage.A:
-		return netip.AddrFromSlice(body.A)
+		addr, ok = netip.AddrFromSlice(body.A)
 	case *dnsmessage.AAAA:
-		return netip.AddrFromSlice(body.AAAA)
+		addr, ok = netip.AddrFromSlice(body.AAAA)
 	default:
 		return netip.Addr{}, false
 	}
+	// ::ffff:0.0.0.0 is 0.0.0.0 in 4-in-6 spelling (and shares its kernel key):
+	// report it as the unspecified address the callers filter out.
+	if ok && addr.Is4In6() && addr.Unmap().IsUnspecified() {
+		addr = addr.Unmap()
+	}
+	return addr, ok
 }
